@@ -230,32 +230,62 @@ fn obs_rb(rb: &ReportBlock) -> Obs {
 }
 
 /// drain an iterator with a cap on the number of items (an over-long iterator is reported)
-fn drain<T>(it: impl Iterator<Item = T>, cap: usize) -> (Vec<T>, bool) {
+/// Collect an iterator with plain `next()` calls (at most cap + 1 items), then walk fresh instances of it
+/// through the adaptors a caller may equally use - `nth`, `skip`, `step_by`, `count`, `last` - and compare them
+/// with what the Iterator contract derives from the collected sequence (a type may override those methods).
+/// Status: 0 fine, 1 more than `cap` items, 2 an adaptor disagrees with repeated `next()`.
+fn drain<T: std::fmt::Debug, I: Iterator<Item = T>>(mk: impl Fn() -> I, cap: usize) -> (Vec<T>, u8) {
     let mut v = Vec::new();
-    let mut over = false;
-    for x in it {
+    for x in mk() {
         if v.len() > cap {
-            over = true;
-            break;
+            return (v, 1);
         }
         v.push(x);
     }
-    (v, over)
+    let dbg: Vec<String> = v.iter().map(|x| format!("{:?}", x)).collect();
+    let n = dbg.len();
+    let mut ks = vec![0usize, 1, 2, n / 2, n.saturating_sub(1), n, n + 1];
+    ks.sort_unstable();
+    ks.dedup();
+    for k in ks {
+        if mk().nth(k).map(|x| format!("{:?}", x)) != dbg.get(k).cloned() {
+            return (v, 2);
+        }
+    }
+    let stepped: Vec<String> = mk().skip(1).step_by(2).take(cap + 2).map(|x| format!("{:?}", x)).collect();
+    let want: Vec<String> = dbg.iter().skip(1).step_by(2).cloned().collect();
+    if stepped != want {
+        return (v, 2);
+    }
+    let mut it = mk();
+    if n > 0 {
+        let first = it.next().map(|x| format!("{:?}", x));
+        let rest = it.nth(n.saturating_sub(2)).map(|x| format!("{:?}", x));
+        if first != dbg.first().cloned() || (n >= 2 && rest != dbg.last().cloned()) {
+            return (v, 2);
+        }
+    }
+    if mk().take(cap + 2).count() != n || mk().take(cap + 2).last().map(|x| format!("{:?}", x)) != dbg.last().cloned() {
+        return (v, 2);
+    }
+    (v, 0)
 }
-fn list_or_overrun(l: Vec<Obs>, over: bool) -> Obs {
-    if over {
-        S("OVERRUN")
-    } else {
-        L(l)
+fn list_or_overrun(l: Vec<Obs>, status: u8) -> Obs {
+    match status {
+        0 => L(l),
+        1 => S("OVERRUN"),
+        _ => S("ITER-MISMATCH"),
     }
 }
 
 fn view_app(input: &[u8], a: &App) -> Kvs {
     // std-only helper: must not panic; not otherwise observed
+    // std-side convenience: must not panic, and must say what the byte accessor says (the name up to its first NUL)
     let std_ok = guard(|| {
-        let _ = a.get_name_string();
-    })
-    .is_ok();
+        let name = a.name();
+        let cut = name.iter().position(|&b| b == 0).unwrap_or(name.len());
+        a.get_name_string().ok() == String::from_utf8(name[..cut].to_vec()).ok()
+    });
     let mut k = vec![
         ("hdr".to_string(), obs_hdr(a)),
         ("padding".to_string(), acc(|| a.padding(), opt_n)),
@@ -263,17 +293,19 @@ fn view_app(input: &[u8], a: &App) -> Kvs {
         ("name".to_string(), acc(|| a.name(), |v| B(v.to_vec()))),
         ("data".to_string(), acc(|| a.data(), |s| rng(input, s))),
     ];
-    if !std_ok {
-        k.push(("std".to_string(), S("PANIC")));
+    match std_ok {
+        Ok(true) => {}
+        Ok(false) => k.push(("std".to_string(), S("STRING-MISMATCH"))),
+        Err(()) => k.push(("std".to_string(), S("PANIC"))),
     }
     k
 }
 
 fn view_bye(input: &[u8], b: &Bye) -> Kvs {
+    // the string view of the reason is the byte view decoded: present exactly when reason() is, same bytes
     let std_ok = guard(|| {
-        let _ = b.get_reason_string();
-    })
-    .is_ok();
+        b.get_reason_string().map(|r| r.ok()) == b.reason().map(|r| String::from_utf8(r.to_vec()).ok())
+    });
     let cap = input.len();
     let mut k = vec![
         ("hdr".to_string(), obs_hdr(b)),
@@ -281,7 +313,7 @@ fn view_bye(input: &[u8], b: &Bye) -> Kvs {
         (
             "ssrcs".to_string(),
             acc(
-                || drain(b.ssrcs(), cap),
+                || drain(|| b.ssrcs(), cap),
                 |(v, o)| list_or_overrun(v.into_iter().map(|x| N(x as u128)).collect(), o),
             ),
         ),
@@ -296,8 +328,10 @@ fn view_bye(input: &[u8], b: &Bye) -> Kvs {
             ),
         ),
     ];
-    if !std_ok {
-        k.push(("std".to_string(), S("PANIC")));
+    match std_ok {
+        Ok(true) => {}
+        Ok(false) => k.push(("std".to_string(), S("STRING-MISMATCH"))),
+        Err(()) => k.push(("std".to_string(), S("PANIC"))),
     }
     k
 }
@@ -312,7 +346,7 @@ fn view_rr(input: &[u8], r: &ReceiverReport) -> Kvs {
         (
             "rbs".to_string(),
             acc(
-                || drain(r.report_blocks(), cap),
+                || drain(|| r.report_blocks(), cap),
                 |(v, o)| list_or_overrun(v.iter().map(obs_rb).collect(), o),
             ),
         ),
@@ -333,7 +367,7 @@ fn view_sr(input: &[u8], r: &SenderReport) -> Kvs {
         (
             "rbs".to_string(),
             acc(
-                || drain(r.report_blocks(), cap),
+                || drain(|| r.report_blocks(), cap),
                 |(v, o)| list_or_overrun(v.iter().map(obs_rb).collect(), o),
             ),
         ),
@@ -341,14 +375,16 @@ fn view_sr(input: &[u8], r: &SenderReport) -> Kvs {
 }
 
 fn obs_item(input: &[u8], it: &SdesItem) -> Obs {
-    let _ = guard(|| {
-        let _ = it.get_value_string();
-    });
+    // the string view of the value is the byte view decoded
+    let std_ok = guard(|| it.get_value_string().ok() == String::from_utf8(it.value().to_vec()).ok());
     let mut l = vec![
         acc(|| it.type_(), |v| N(v as u128)),
         acc(|| it.length(), I),
         acc(|| it.value(), |s| rng(input, s)),
     ];
+    if let Ok(false) = std_ok {
+        l.push(S("STRING-MISMATCH"));
+    }
     if let Ok(ty) = guard(|| it.type_()) {
         if ty == SdesItem::PRIV {
             l.push(acc(|| it.priv_prefix_len(), |v| N(v as u128)));
@@ -360,7 +396,7 @@ fn obs_item(input: &[u8], it: &SdesItem) -> Obs {
 
 fn obs_chunk(input: &[u8], c: &SdesChunk) -> Obs {
     let cap = input.len();
-    let items = match guard(|| drain(c.items(), cap)) {
+    let items = match guard(|| drain(|| c.items(), cap)) {
         Ok((v, o)) => list_or_overrun(v.into_iter().map(|it| obs_item(input, it)).collect(), o),
         Err(()) => S("PANIC"),
     };
@@ -373,7 +409,7 @@ fn obs_chunk(input: &[u8], c: &SdesChunk) -> Obs {
 
 fn view_sdes(input: &[u8], s: &Sdes) -> Kvs {
     let cap = input.len();
-    let chunks = match guard(|| drain(s.chunks(), cap)) {
+    let chunks = match guard(|| drain(|| s.chunks(), cap)) {
         Ok((v, o)) => list_or_overrun(v.into_iter().map(|c| obs_chunk(input, c)).collect(), o),
         Err(()) => S("PANIC"),
     };
@@ -418,7 +454,7 @@ fn parse_sli_debug(s: &str) -> Obs {
 fn fci_nack(input: &[u8], n: &Nack) -> Obs {
     let cap = 5 * input.len() + 8;
     let entries = acc(
-        || drain(n.entries(), cap),
+        || drain(|| n.entries(), cap),
         |(v, o)| list_or_overrun(v.into_iter().map(|x| N(x as u128)).collect(), o),
     );
     // three further next() calls after exhaustion
@@ -444,7 +480,7 @@ fn fci_nack(input: &[u8], n: &Nack) -> Obs {
 fn fci_fir(input: &[u8], f: &Fir) -> Obs {
     let cap = input.len() + 8;
     acc(
-        || drain(f.entries(), cap),
+        || drain(|| f.entries(), cap),
         |(v, o)| {
             list_or_overrun(
                 v.into_iter()
@@ -458,7 +494,7 @@ fn fci_fir(input: &[u8], f: &Fir) -> Obs {
 fn fci_sli(input: &[u8], s: &Sli) -> Obs {
     let cap = input.len() + 8;
     acc(
-        || drain(s.lost_macroblocks(), cap),
+        || drain(|| s.lost_macroblocks(), cap),
         |(v, o)| list_or_overrun(v.into_iter().map(|e| parse_sli_debug(&format!("{:?}", e))).collect(), o),
     )
 }
@@ -821,6 +857,16 @@ pub fn run_compound(input: &[u8]) -> Kvs {
                     }
                 }
             }
+            if !failed {
+                // the same walk through nth / skip / step_by / count / last on fresh iterators
+                let walk = guard(|| drain(|| Compound::parse(input).unwrap(), cap + 4).1);
+                match walk {
+                    Ok(0) => {}
+                    Ok(1) => items.push(S("OVERRUN")),
+                    Ok(_) => items.push(S("ITER-MISMATCH")),
+                    Err(()) => items.push(S("PANIC")),
+                }
+            }
             out.push(("items".to_string(), L(items)));
         }
     }
@@ -1163,6 +1209,7 @@ pub trait W {
     fn calc(&self) -> Result<usize, RtcpWriteError>;
     fn pad(&self) -> Option<u8>;
     fn write(&self, buf: &mut [u8]) -> Result<usize, RtcpWriteError>;
+    fn write_unchecked(&self, buf: &mut [u8]) -> usize;
 }
 /// One impl per concrete builder type, so that every call below is written - and resolved - the way a user of
 /// the crate writes it: method syntax on the concrete type.  (A blanket impl over `T: RtcpPacketWriter` would
@@ -1178,6 +1225,9 @@ macro_rules! impl_w {
             }
             fn write(&self, buf: &mut [u8]) -> Result<usize, RtcpWriteError> {
                 self.write_into(buf)
+            }
+            fn write_unchecked(&self, buf: &mut [u8]) -> usize {
+                self.write_into_unchecked(buf)
             }
         }
     )* };
@@ -1417,6 +1467,26 @@ fn obs_writes(bufs: &[(usize, u8)], f: impl Fn(&mut [u8]) -> Result<usize, RtcpW
     L(l)
 }
 
+/// a bare FCI builder used as a writer in its own right (the five FCI builders implement RtcpPacketWriter)
+fn run_fci(bufspec: &str, f: &FciCfg) -> Result<Kvs, String> {
+    fn go<Wr: RtcpPacketWriter>(bufspec: &str, w: Wr) -> Result<Kvs, String> {
+        let size = guard(|| w.calculate_size());
+        let n = match &size {
+            Ok(Ok(n)) => *n,
+            _ => 0,
+        };
+        let bufs = parse_bufs(bufspec, n)?;
+        Ok(vec![("size".to_string(), wres_ref(&size)), ("writes".to_string(), obs_writes(&bufs, |b| w.write_into(b)))])
+    }
+    match f {
+        FciCfg::Nack(v) => go(bufspec, nack_builder(v)),
+        FciCfg::Fir(v) => go(bufspec, fir_builder(v)),
+        FciCfg::Sli(v) => go(bufspec, sli_builder(v)),
+        FciCfg::Rpsi(pt, bits, ov) => go(bufspec, rpsi_builder(*pt, bits, *ov)),
+        FciCfg::Pli => go(bufspec, Pli::builder()),
+    }
+}
+
 fn helper_hdr<const PT: u8, const MIN: usize>(padding: u8, count: u8, buf: &mut [u8]) -> usize {
     writer::write_header_unchecked::<Custom<PT, MIN>>(padding, count, buf)
 }
@@ -1452,6 +1522,18 @@ fn run_helper(t: &mut Toks) -> Result<Kvs, String> {
             let bytes = if r.is_ok() { buf } else { vec![] };
             L(vec![wres(r), B(bytes)])
         }
+        "phdr" => {
+            let d = t.hex()?;
+            L(vec![
+                acc(|| parser::parse_version(&d), |v| N(v as u128)),
+                acc(|| parser::parse_padding_bit(&d), |b| S(if b { "true" } else { "false" })),
+                acc(|| parser::parse_padding(&d), opt_n),
+                acc(|| parser::parse_count(&d), |v| N(v as u128)),
+                acc(|| parser::parse_packet_type(&d), |v| N(v as u128)),
+                acc(|| parser::parse_length(&d), I),
+                acc(|| parser::parse_ssrc(&d), |v| N(v as u128)),
+            ])
+        }
         "chk" => {
             let p: u8 = t.num()?;
             match guard(|| writer::check_padding(p)) {
@@ -1484,6 +1566,20 @@ fn run_build(bufspec: &str, m: &Member) -> Result<Kvs, String> {
         ),
         ("writes".to_string(), obs_writes(&bufs, |b| w.write(b))),
     ];
+    let uw_len = match (&size, m) {
+        (Ok(Ok(n)), _) => Some(*n + 8),
+        // the one invalid configuration whose unchecked write returns 0 instead of panicking
+        (Ok(Err(RtcpWriteError::FciWrongFeedbackPacketType)), Member::Fb { .. }) => Some(24),
+        _ => None,
+    };
+    if let Some(len) = uw_len {
+        // write_into_unchecked called directly on a buffer 8 bytes longer than the calculated size
+        let fill = bufs.first().map(|b| b.1).unwrap_or(0);
+        let mut buf = vec![fill; len];
+        let r = guard(|| Ok(w.write_unchecked(&mut buf)));
+        let bytes = if r.is_ok() { buf } else { vec![] };
+        out.push(("uw".to_string(), L(vec![wres(r), B(bytes)])));
+    }
     if let Member::Compound(ms) = m {
         // the same compound built with a size / padding query after every add_packet
         let q = compound_builder_q(ms, true)?;
@@ -1571,6 +1667,11 @@ fn run_line(line: &str) -> Option<String> {
             run_item(bufs, &c)
         }
         "hist" => hist::run_hist(&mut t),
+        "fci" => {
+            let bufs = t.next()?;
+            let f = parse_fci(&mut t)?;
+            run_fci(bufs, &f)
+        }
         "helper" => run_helper(&mut t),
         _ => Err("unknown-kind".to_string()),
     })();
